@@ -106,7 +106,8 @@ Upd(s, e) ==
     [] e.ev = "awaited" -> DoWaited(s)
     [] e.ev = "aend" -> Owes(s)
     \* doorkeeper with thousands of keys (filters cleared and rebuilt): a key the cache holds is never refused
-    [] e.ev = "adoor" -> Vif([s EXCEPT !.tid = e.id, !.traces = s.traces + 1], e.refused > 0, "C06", "api_set_false_for_key_the_cache_holds")
+    [] e.ev = "adoor" -> Vif(Vif([s EXCEPT !.tid = e.id, !.traces = s.traces + 1], e.refused > 0, "C06", "api_set_false_for_key_the_cache_holds"),
+                             e.undeleted > 0, "C01", "api_deleted_key_still_served_by_doorkeeper_cache")
     [] OTHER -> s
 
 TraceInit == l = 1 /\ st = Init0 /\ done = FALSE
